@@ -355,6 +355,8 @@ class Norm:
     def loc_in(self, loc):
         if not isinstance(loc, tuple):
             return ("in", str(loc))
+        if not loc:
+            return ("loc",)
         k = loc[0]
         if k == "P":
             return ("in", loc[2])
